@@ -47,10 +47,10 @@ use crate::SigId;
 /// Maximal signal number we support.
 #[cfg(not(sighook_verif))]
 const MAX_SIGNUM: usize = 128;
-// Verification builds use an 8-entry table (loop bounds, shared-word budget); the
-// boundary behaviour is then exercised at 8 instead of 128.
+// Verification builds use a 4-entry table (loop bounds, shared-word budget); the
+// boundary behaviour is then exercised at 4 instead of 128.
 #[cfg(sighook_verif)]
-const MAX_SIGNUM: usize = 8;
+const MAX_SIGNUM: usize = 4;
 
 trait SelfPipeWrite: Debug + Send + Sync {
     fn wake_readers(&self);
